@@ -102,6 +102,12 @@ def gen_case(run_seed: int, index: int, tier: str) -> dict:
         else:
             msgs.append([rng.randrange(2) for _ in range(k)])
     case["messages"] = msgs
+    if rng.random() < 0.2:
+        case["warmup_messages"] = [[[rng.randrange(2) for _ in range(k)] for _ in range(rng.choice([1, 2, 3]))] for _ in range(rng.choice([1, 2]))]
+    if rng.random() < 0.15:  # a similar code (same encoder class, same n and k) was set up earlier in the process
+        sib = C.sibling_spec(rng, spec)
+        if sib is not None:
+            case["prelude"] = sib
     if clause == 1:
         pats = []
         for r in range(B):
@@ -163,6 +169,10 @@ def execute(case: dict) -> RunResult:
     msg = torch.tensor(case["messages"], dtype=torch.float32)
     log.add("result", {"out": lr.out if lr.exc is None else f"raised {type(lr.exc).__name__}", "fired": lr.fired})
     res.probes[f"clause{case['clause']}.{C.DECODER_CLASS[dk]}"] += 1
+    if case.get("warmup_messages"):
+        res.faults["history.earlier_calls_on_same_chain"] += len(case["warmup_messages"])
+    if case.get("prelude"):
+        res.faults["history.sibling_code_built_first"] += 1
     enc = C.build_encoder(spec)
     n = enc.code_length
     if lr.exc is not None:
@@ -225,6 +235,11 @@ def shrink_candidates(case: dict):
         c = copy.deepcopy(case)
         c["messages"] = [[0] * len(row) for row in case["messages"]]
         yield c
+    for key in ("warmup_messages", "prelude"):
+        if case.get(key):
+            c = copy.deepcopy(case)
+            del c[key]
+            yield c
     if case["plan"]["kind"] == "flips":
         for r, row in enumerate(case["plan"]["patterns"]):
             p = row[0]
